@@ -17,7 +17,18 @@ var Registry = map[string]func(*mc.Ctx){
 // Replayers re-execute a recorded witness without the explorer; keyed by engine.
 var Replayers = map[string]func(c *mc.Ctx, replay map[string]interface{}){}
 
-func Worker(args []string) int { return 2 }
+func Worker(args []string) int {
+	if len(args) > 0 && args[0] == "c11open" {
+		return c11OpenWorker(args[1:])
+	}
+	if len(args) > 0 && args[0] == "c11gen" {
+		return c11GenWorker(args[1:])
+	}
+	if len(args) > 0 && args[0] == "c11cont" {
+		return c11ContWorker(args[1:])
+	}
+	return 2
+}
 
 func Replay(path string) int {
 	data, err := ioutil.ReadFile(path)
